@@ -1,1 +1,265 @@
-Example C18_placeholder : True. Proof. exact I. Qed.
+(* ====================================================================== *)
+(*  Properties_C18.v                                                       *)
+(*                                                                        *)
+(*  C18:  If any single memory allocation made by the library's own code   *)
+(*  fails ..., the call either completes or reports failure through its    *)
+(*  return value; the process is not aborted, no freed or half-built       *)
+(*  object stays reachable, and the context can still be queried and freed *)
+(*  without error or leak.                                                 *)
+(*                                                                        *)
+(*  Statements only; every proof is [exact <lemma of OomProofs3>].         *)
+(*                                                                        *)
+(*  Reading guide.  [run m h k] runs the model function m on heap h, the   *)
+(*  k-th allocation request fails (k = 0: none).  The result is            *)
+(*  [Ok v s] (normal return, possibly reporting Failed / NULL), [Crash]    *)
+(*  (some step touched a block that is not live, double free, NULL or      *)
+(*  out-of-bounds access) or [Fuel].  Every theorem says [run ... = Ok ..] *)
+(*  -- this is (a) SAFETY.  The final fault counter [k - N] also says that *)
+(*  the call makes exactly N requests when no fault occurs.                *)
+(*  [HeapOK h L h' L'] is (b): the new footprint L' is well formed in h'   *)
+(*  (every owned block live with the recorded contents, no block owned     *)
+(*  twice), blocks of h outside the old footprint L are untouched, and     *)
+(*  live blocks of h' = blocks of L' + live foreign blocks of h.           *)
+(*  The last two conjuncts are (c) and (d).                                *)
+(* ====================================================================== *)
+Require Import List Arith Bool.
+Import ListNotations.
+Require Import LC.Oom LC.OomProofs LC.OomProofs2 LC.OomProofs3.
+
+(* ---------------------------------------------------------------------- *)
+(* (1) cfg_addval : requests = realloc(values), calloc(value cell)         *)
+(*     partial effect on failure: the pointer array may have been moved /  *)
+(*     grown (spare capacity), the value list is unchanged.                *)
+(* ---------------------------------------------------------------------- *)
+Theorem C18_addval : forall h g k,
+  Sep h (cells_gopt g) ->
+  exists h' g' out,
+    run (cfg_addval (rec_of_gopt g)) h k = Ok (rec_of_gopt g', out) (mkst h' (k - 2)) /\
+    HeapOK h (cells_gopt g) h' (cells_gopt g') /\
+    (hits k 2 -> out = Failed /\ abs_opt g' = abs_opt g) /\
+    (~ hits k 2 -> exists cv, out = Done cv /\ abs_opt g' = add_value (abs_opt g) None /\
+                              In cv (addrs (cells_gopt g'))).
+Proof. exact C18_addval_lemma. Qed.
+Print Assumptions C18_addval.
+
+(* ---------------------------------------------------------------------- *)
+(* (2) cfg_opt_setnstr(opt, value, index) : requests =                     *)
+(*       [realloc, calloc  if index >= nvalues]  then  [strdup if value]   *)
+(*     DOCUMENTED PARTIAL EFFECT (the one place where Failed is not        *)
+(*     benign): when index >= nvalues and the strdup (request 3) fails,    *)
+(*     the call returns CFG_FAIL but the value list has already grown by   *)
+(*     one entry whose string is NULL.                                     *)
+(* ---------------------------------------------------------------------- *)
+Theorem C18_setnstr : forall h g k value index,
+  Sep h (cells_gopt g) ->
+  let nv := length (a_values (abs_opt g)) in
+  let N := nreq_setnstr nv index value in
+  exists h' g' out,
+    run (cfg_opt_setnstr (rec_of_gopt g) value index) h k = Ok (rec_of_gopt g', out) (mkst h' (k - N)) /\
+    HeapOK h (cells_gopt g) h' (cells_gopt g') /\
+    (hits k N -> out = Failed /\
+       abs_opt g' = if (nv <=? index) && (k =? 3) then add_value (abs_opt g) None else abs_opt g) /\
+    (~ hits k N -> out = Done tt /\
+       abs_opt g' = if index <? nv then set_value (abs_opt g) index value
+                    else add_value (abs_opt g) value).
+Proof. exact C18_setnstr_lemma. Qed.
+Print Assumptions C18_setnstr.
+
+(* ---------------------------------------------------------------------- *)
+(* (3) cfg_opt_setcomment : requests = strdup(comment)                     *)
+(* ---------------------------------------------------------------------- *)
+Theorem C18_setcomment : forall h g k s,
+  Sep h (cells_gopt g) ->
+  exists h' g' out,
+    run (cfg_opt_setcomment (rec_of_gopt g) s) h k = Ok (rec_of_gopt g', out) (mkst h' (k - 1)) /\
+    HeapOK h (cells_gopt g) h' (cells_gopt g') /\
+    (hits k 1 -> out = Failed /\ abs_opt g' = abs_opt g) /\
+    (~ hits k 1 -> out = Done tt /\ abs_opt g' = set_comment (abs_opt g) s).
+Proof. exact C18_setcomment_lemma. Qed.
+Print Assumptions C18_setcomment.
+
+(* ---------------------------------------------------------------------- *)
+(* (4) cfg_add_searchpath : requests = [malloc(user) if "~user"],          *)
+(*     malloc(expanded) or strdup(filename), malloc(cfg_searchpath_t)      *)
+(*     On failure even the ghost structure is unchanged (c' = c).          *)
+(* ---------------------------------------------------------------------- *)
+Theorem C18_add_searchpath : forall h c k t,
+  Sep h (cells_gcfg c) ->
+  let N := nreq_texp t + 1 in
+  exists h' c' out,
+    run (cfg_add_searchpath (gc_addr c) t) h k = Ok out (mkst h' (k - N)) /\
+    gc_addr c' = gc_addr c /\
+    HeapOK h (cells_gcfg c) h' (cells_gcfg c') /\
+    (hits k N -> out = Failed /\ c' = c) /\
+    (~ hits k N -> out = Done tt /\ abs_cfg c' = add_path (abs_cfg c) (texp_result t)).
+Proof. exact C18_add_searchpath_lemma. Qed.
+Print Assumptions C18_add_searchpath.
+
+(* ---------------------------------------------------------------------- *)
+(* (5) cfg_addopt, CURRENT code : requests = reallocarray(opts), strdup    *)
+(*     partial effect on failure of the strdup: the array has been moved / *)
+(*     grown, it still ends at the same CFG_END slot.                      *)
+(* ---------------------------------------------------------------------- *)
+Theorem C18_addopt : forall h c k key,
+  Sep h (cells_gcfg c) ->
+  exists h' c' out,
+    run (cfg_addopt (gc_addr c) key) h k = Ok out (mkst h' (k - 2)) /\
+    gc_addr c' = gc_addr c /\
+    HeapOK h (cells_gcfg c) h' (cells_gcfg c') /\
+    (hits k 2 -> out = Failed /\ abs_cfg c' = abs_cfg c) /\
+    (~ hits k 2 -> out = Done (gs_addr (gc_opts c'), length (c_opts (abs_cfg c))) /\
+                   abs_cfg c' = add_opt (abs_cfg c) (new_aopt key)).
+Proof. exact C18_addopt_lemma. Qed.
+Print Assumptions C18_addopt.
+
+(* the PREVIOUS cfg_addopt (free(opts) on strdup failure, after cfg->opts = opts)
+   violates (b): a concrete well-formed cfg, key and fault index after which
+   the cfg is no longer well formed (cfg->opts is a freed block) *)
+Theorem C18_addopt_old_refuted :
+  exists h ca key k,
+    WF_cfg h ca /\
+    exists h', run (cfg_addopt_old ca key) h k = Ok Failed (mkst h' 0) /\ ~ WF_cfg h' ca.
+Proof. exact C18_addopt_old_refuted_lemma. Qed.
+Print Assumptions C18_addopt_old_refuted.
+
+(* ---------------------------------------------------------------------- *)
+(* (6) cfg_dupopt_array on a template array without sub-options :          *)
+(*     requests = calloc(array), then per option strdup(name),             *)
+(*     [strdup(def.parsed)], [strdup(def.string)], [strdup(comment)]       *)
+(*     The source is only read.  On failure NOTHING new stays allocated    *)
+(*     (goto err -> cfg_free_opt_array), on success the copy is handed to  *)
+(*     the caller as a fresh well-formed array with the same abstract      *)
+(*     value.                                                              *)
+(* ---------------------------------------------------------------------- *)
+Theorem C18_dupopt_flat : forall fuel h Gs k,
+  template Gs -> Holds h (cells_gopts Gs) ->
+  let N := 1 + nreq_opts (gs_opts Gs) in
+  exists h' out,
+    run (cfg_dupopt_array (S fuel) (gs_addr Gs)) h k = Ok out (mkst h' (k - N)) /\
+    (hits k N -> out = None /\ HeapOK h [] h' []) /\
+    (~ hits k N -> exists G', out = Some (gs_addr G') /\ template G' /\ gs_spare G' = [] /\
+                              HeapOK h [] h' (cells_gopts G') /\
+                              map abs_opt (gs_opts G') = map abs_opt (gs_opts Gs)).
+Proof. exact C18_dupopt_flat_lemma. Qed.
+Print Assumptions C18_dupopt_flat.
+
+(* cfg_free_opt_array releases exactly the footprint of a template array (no request) *)
+Theorem C18_free_opt_array : forall fuel h G k,
+  template G -> Sep h (cells_gopts G) ->
+  exists h', run (cfg_free_opt_array (S fuel) (gs_addr G)) h k = Ok tt (mkst h' k) /\
+             HeapOK h (cells_gopts G) h' [].
+Proof. exact C18_free_opt_array_lemma. Qed.
+Print Assumptions C18_free_opt_array.
+
+(* ---------------------------------------------------------------------- *)
+(* (7) cfg_init (without cfg_init_defaults) : requests = calloc(cfg_t),    *)
+(*     strdup("root"), then those of cfg_dupopt_array                      *)
+(* ---------------------------------------------------------------------- *)
+Theorem C18_init_flat : forall fuel h Gs k,
+  template Gs -> Holds h (cells_gopts Gs) ->
+  let N := nreq_init (gs_opts Gs) in
+  exists h' out,
+    run (cfg_init (S fuel) (gs_addr Gs)) h k = Ok out (mkst h' (k - N)) /\
+    (hits k N -> out = Failed /\ HeapOK h [] h' []) /\
+    (~ hits k N -> exists c, out = Done (gc_addr c) /\ HeapOK h [] h' (cells_gcfg c) /\
+                             abs_cfg c = mkACfg (Some root_name) (map abs_opt (gs_opts Gs)) []).
+Proof. exact C18_init_flat_lemma. Qed.
+Print Assumptions C18_init_flat.
+
+(* ---------------------------------------------------------------------- *)
+(*  Exhaustive fault enumeration on the fixed instances of Oom.v, PART III *)
+(*  (fault indices 0 .. 10; index 0 = no fault)                            *)
+(* ---------------------------------------------------------------------- *)
+Notation D := KDone.  Notation F := KFailed.
+
+(* the instances satisfy the hypotheses of the theorems *)
+Example inst_cfg_well_formed : WF_cfg inst_cfg_heap inst_cfg.
+Proof. exists inst_gcfg. exact inst_cfg_wf. Qed.
+
+(* 1: cfg_addval on a string option without values *)
+Example enum_addval : map (inst_kind 1) (seq 0 11) = [D; F; F; D; D; D; D; D; D; D; D].
+Proof. vm_compute. reflexivity. Qed.
+
+(* 2: cfg_opt_setnstr(opt, "v", 0) on an option without values : realloc, calloc, strdup *)
+Example enum_setnstr_new : map (inst_kind 2) (seq 0 11) = [D; F; F; F; D; D; D; D; D; D; D].
+Proof. vm_compute. reflexivity. Qed.
+
+(* 21: cfg_opt_setnstr(opt, "v", 0) on an option that has value 0 : strdup only *)
+Example enum_setnstr_old : map (inst_kind 21) (seq 0 11) = [D; F; D; D; D; D; D; D; D; D; D].
+Proof. vm_compute. reflexivity. Qed.
+
+(* 3: cfg_opt_setcomment *)
+Example enum_setcomment : map (inst_kind 3) (seq 0 11) = [D; F; D; D; D; D; D; D; D; D; D].
+Proof. vm_compute. reflexivity. Qed.
+
+(* 4: cfg_add_searchpath(cfg, "/etc") : strdup, malloc *)
+Example enum_searchpath_plain : map (inst_kind 4) (seq 0 11) = [D; F; F; D; D; D; D; D; D; D; D].
+Proof. vm_compute. reflexivity. Qed.
+
+(* 41: cfg_add_searchpath(cfg, "~root/x"), passwd entry found : malloc user, malloc expanded, malloc node *)
+Example enum_searchpath_user : map (inst_kind 41) (seq 0 11) = [D; F; F; F; D; D; D; D; D; D; D].
+Proof. vm_compute. reflexivity. Qed.
+
+(* 5: cfg_addopt(cfg, "k") on the initialised 3-option cfg *)
+Example enum_addopt : map (inst_kind 5) (seq 0 11) = [D; F; F; D; D; D; D; D; D; D; D].
+Proof. vm_compute. reflexivity. Qed.
+
+(* 6: cfg_dupopt_array of { INT a; STR b = "x"; STR_LIST l = "{p}" } :
+      calloc, name a, name b, string b, name l, parsed l *)
+Example enum_dupopt : map (inst_kind 6) (seq 0 11) = [D; F; F; F; F; F; F; D; D; D; D].
+Proof. vm_compute. reflexivity. Qed.
+
+(* 7: cfg_init of the same template : calloc cfg, strdup "root", then the six above *)
+Example enum_init : map (inst_kind 7) (seq 0 11) = [D; F; F; F; F; F; F; F; F; D; D].
+Proof. vm_compute. reflexivity. Qed.
+
+(* no instance ever crashes or runs out of fuel, for any fault index 0..40 *)
+Example enum_no_crash :
+  forallb (fun i => forallb (fun k => match inst_kind i k with KDone | KFailed => true | _ => false end)
+                            (seq 0 41))
+          [1; 2; 21; 3; 4; 41; 5; 6; 61; 7; 71] = true.
+Proof. vm_compute. reflexivity. Qed.
+
+(* ---------------------------------------------------------------------- *)
+(*  PARTIAL: one level of sub-options (the recursive call of               *)
+(*  cfg_dupopt_array / cfg_free_opt_array).  NOT covered by a general      *)
+(*  theorem; checked by computation, for EVERY fault index, on the         *)
+(*  instance { SEC s { INT i; STR t = "x" }; STR b = "x" } :               *)
+(*  requests = calloc, name s, [calloc, name i, name t, string t],         *)
+(*  name b, string b.  [dup_result_ok] checks: no Crash; old blocks        *)
+(*  untouched; Failed => no new block is live; Done d => the new live      *)
+(*  blocks are exactly the blocks reachable from d, each reached once.     *)
+(* ---------------------------------------------------------------------- *)
+Example dupopt_nested_partial_kinds :
+  map (inst_kind 61) (seq 0 12) = [D; F; F; F; F; F; F; F; F; D; D; D].
+Proof. vm_compute. reflexivity. Qed.
+
+Example dupopt_nested_partial_no_leak_no_dangling :
+  forallb (fun k => dup_result_ok inst_nested_heap
+                      (run (cfg_dupopt_array 2 inst_nested) inst_nested_heap k)) (seq 0 41) = true.
+Proof. vm_compute. reflexivity. Qed.
+
+(* the same executable check agrees with the theorem on the flat instance 6 *)
+Example dupopt_flat_check :
+  forallb (fun k => dup_result_ok inst_template_heap
+                      (run (cfg_dupopt_array 1 inst_template) inst_template_heap k)) (seq 0 41) = true.
+Proof. vm_compute. reflexivity. Qed.
+
+(* 71: cfg_init of the nested template : 2 + 8 requests *)
+Example init_nested_partial_kinds :
+  map (inst_kind 71) (seq 0 13) = [D; F; F; F; F; F; F; F; F; F; F; D; D].
+Proof. vm_compute. reflexivity. Qed.
+
+(* the table that OomExtract.v extracts *)
+Example oom_table_value :
+  oom_table tt = [ (1, [1; 2]); (2, [1; 2; 3]); (21, [1]); (3, [1]); (4, [1; 2]); (41, [1; 2; 3]);
+                   (5, [1; 2]); (6, [1; 2; 3; 4; 5; 6]); (61, [1; 2; 3; 4; 5; 6; 7; 8]);
+                   (7, [1; 2; 3; 4; 5; 6; 7; 8]); (71, [1; 2; 3; 4; 5; 6; 7; 8; 9; 10]) ].
+Proof. vm_compute. reflexivity. Qed.
+
+(* the old cfg_addopt on instance 5 with fault index 2: reports Failed as well,
+   but leaves cfg->opts pointing to a freed block (see C18_addopt_old_refuted) *)
+Example enum_addopt_old :
+  map (fun k => kind_res kind_of_outcome (run (cfg_addopt_old inst_cfg s_k) inst_cfg_heap k)) (seq 0 5)
+  = [D; F; F; D; D].
+Proof. vm_compute. reflexivity. Qed.
